@@ -201,6 +201,25 @@ Proof.
   - exact Hc1.
 Qed.
 
+Lemma arr_walk_eqb_seq : forall a b : list Z, length a = length b -> arr_walk_eqb a b = seq_eqb a b.
+Proof.
+  induction a as [|x a IH]; intros [|y b] H; cbn in *; try reflexivity; try discriminate.
+  destruct (x =? y); cbn [andb]; [apply IH; congruence|reflexivity].
+Qed.
+
+Lemma seq_eqb_length : forall a b : list Z, length a <> length b -> seq_eqb a b = false.
+Proof.
+  induction a as [|x a IH]; intros [|y b] H; cbn in *; try reflexivity; try congruence.
+  rewrite IH by congruence. apply andb_false_r.
+Qed.
+
+Lemma a_eqb_seq a b : a_eqb a b = seq_eqb (items a) (items b).
+Proof.
+  unfold a_eqb, asize. destruct (Z.of_nat (length (items a)) =? Z.of_nat (length (items b))) eqn:E.
+  - apply arr_walk_eqb_seq. lia.
+  - symmetry. apply seq_eqb_length. lia.
+Qed.
+
 (* ---- worlds ----------------------------------------------------------------------------- *)
 Definition ainv (w : aworld) : Prop := Forall a_inv w.
 
@@ -343,6 +362,14 @@ Proof.
     cbv zeta in H. inversion H; subst w' r.
     destruct (a_resize_refines n (nth k (items (aget i w)) 0) _ (ainv_get i w I) ltac:(assumption)) as (I1 & Hi).
     split; [apply ainv_upd; assumption|]. rewrite aabs_upd, sget_aabs, Hi. reflexivity.
+  - (* AAppendBufOwn *)
+    cbv zeta in H. inversion H; subst w' r.
+    destruct (a_append_all_refines (firstn n (skipn off (items (aget i w)))) _ (ainv_get i w I)) as (I1 & Hi).
+    split; [apply ainv_upd; assumption|]. rewrite aabs_upd, sget_aabs, Hi. reflexivity.
+  - (* AEq *)
+    inversion H; subst w' r. split; [exact I|]. rewrite !sget_aabs, a_eqb_seq. reflexivity.
+  - (* ANe *)
+    inversion H; subst w' r. split; [exact I|]. rewrite !sget_aabs, a_eqb_seq. reflexivity.
 Qed.
 
 Definition aobs_trace (tr : list (aworld * mres)) : list (sstate * res) :=
